@@ -121,9 +121,9 @@ def get_capacity(capacity, offset, skip_bytes):
     # number of TLV length bytes (1 or 3) and the TLV tag byte.
     capacity = len(set(range(offset, capacity + 16)) - skip_bytes)
     # To store more than 254 byte ndef we must use three length bytes,
-    # otherwise it's only one. But only if the capacity is more than
-    # 256 the three length byte format will provide a higher value.
-    capacity -= 4 if capacity > 256 else 2
+    # otherwise it's only one. Up to 254 byte fit with the one byte
+    # format, the three byte format holds more only beyond 258 byte.
+    capacity = max(min(capacity - 2, 254), capacity - 4)
     return capacity
 
 
@@ -214,6 +214,9 @@ class Type2Tag(Tag):
                 offset += tlv_l + 1 + (1 if tlv_l < 255 else 3)
 
             self._capacity = get_capacity(raw_capacity, offset, skip_bytes)
+            if ndef is not None and len(ndef) > self._capacity:
+                log.warning("ndef message tlv exceeds the data area")
+                return None
             self._ndef_tlv_offset = offset
             self._tag_memory = tag_memory
             self._skip_bytes = skip_bytes
